@@ -422,6 +422,9 @@ func (f *Frame) contractCall(st *State, x *ssa.Call, c *Contract, callee *ssa.Fu
 		}
 	}
 	for i, cl := range c.Requires {
+		if isGlobalInv(cl) {
+			continue // data-structure invariant: maintained by its only writers, not a caller obligation
+		}
 		g, err := ctx.evalBoolSafe(cl.E)
 		if err != nil {
 			f.oblige(st, "call-pre", name, fmt.Sprintf("precondition %d of %s cannot be evaluated: %v", i+1, c.Key, err), x.Pos(), B.False(), nil)
@@ -429,12 +432,24 @@ func (f *Frame) contractCall(st *State, x *ssa.Call, c *Contract, callee *ssa.Fu
 		}
 		f.oblige(st, "call-pre", name, fmt.Sprintf("precondition of %s: %s", c.Key, cl.Text), x.Pos(), g, nil)
 	}
+	// termination of (mutual) recursion: the callee's measure is smaller than the caller's
+	if f.top && f.c != nil && f.c.Measure != nil && c.Measure != nil {
+		callerCtx := f.newCtx(f.entry, f.entry)
+		mCaller, err1 := callerCtx.evalIntSafe(f.c.Measure.E)
+		mCallee, err2 := ctx.evalIntSafe(c.Measure.E)
+		if err1 != nil || err2 != nil {
+			f.oblige(st, "measure", name, "termination measure cannot be evaluated", x.Pos(), B.False(), c.Measure)
+		} else {
+			f.oblige(st, "measure", name, fmt.Sprintf("recursion terminates: %s of the callee is smaller than %s of the caller and not negative", c.Measure.Text, f.c.Measure.Text),
+				x.Pos(), B.And(B.Le(B.Int(0), mCallee), B.Lt(mCallee, mCaller)), c.Measure)
+		}
+	}
 	pre := st.clone()
 	ms := newModSet()
 	for _, a := range c.Assigns {
 		vc.assignEntryClasses(a, c, ms)
 	}
-	f.applyMods(st, ms)
+	f.applyModsTagged(st, ms, "cv_")
 	// frame conditions of the form M[lo..hi)
 	for _, a := range c.Assigns {
 		if strings.HasPrefix(a, "M[") {
